@@ -71,6 +71,14 @@ def scenarios(c):
                     for kind, sa in stored_variants(rng, a):
                         steps.append({"api": "legacytyped", "op": "read", "var": var, "val": "-", "stored": {"attrs": sa, "val": rng.choice(["d1", "d3", "dc"])}})
                     steps.append({"api": "legacytyped", "op": "read", "var": var, "val": "-"})
+            if api == "obj":
+                # typed accessors of the object API: key databases and a boot entry, stored mask equal / superset / subset / disjoint / zero
+                for (n, g, a, vals) in (("PK", "global", [NV, BS, RT, AT], ["d1", "dc"]), ("KEK", "global", [NV, BS, RT, AT], ["d3"]), ("db", "sec", [NV, BS, RT, AT], ["d1", "d3", "dc"]),
+                                        ("dbx", "sec", [NV, BS, RT, AT], ["d1"]), ("Boot0001", "global", [NV, BS, RT], ["lo1"]), ("Boot00A0", "global", [NV, BS, RT], ["lo1"])):
+                    var = {"name": n, "guid": g, "attrs": a}
+                    for kind, sa in stored_variants(rng, a):
+                        steps.append({"api": "objtyped", "op": "read", "var": var, "val": "-", "stored": {"attrs": sa, "val": rng.choice(vals)}})
+                    steps.append({"api": "objtyped", "op": "read", "var": var, "val": "-"})
             # split into sequences that share one wrapper object: long shuffled runs so that state kept by the wrapper shows
             # every fifth read is followed at once by the same read of the untouched variable (a second look must see what the first saw)
             units = []
